@@ -198,7 +198,7 @@ func builtinStringMatch(call FunctionCall) Value {
 	result := matcher.regExpValue().regularExpression.FindAllStringIndex(target, -1)
 	if result == nil {
 		matcher.put("lastIndex", intValue(0), true)
-		return Value{} // !match
+		return nullValue // !match
 	}
 	matchCount := len(result)
 	valueArray := make([]Value, matchCount)
